@@ -155,6 +155,19 @@ pub fn generate(g: &mut Gen) {
             g.push(format!("opt.run {} 1 1 1 {} {} {}", spec.token(), qt(&w), n, steps.join(" ")), Tol::Tight, "rmsprop/centred/constant-gradient", true);
         }
     }
+    // long histories on one slot with consecutive step numbers: the bias corrections 1 - beta^t of Adam / AdamW keep
+    // their documented form at every t (beta1^t and beta2^t fall below the rounding unit at very different t)
+    for (b1, b2, n) in [(0.9f32, 0.999f32, 200usize), (0.5, 0.999, 40), (0.0, 0.0, 180), (0.9, 0.9, 170), (0.3, 0.99, 30)] {
+        for (si, spec) in [OptSpec::Adam(0.01, b1, b2, 1e-8, None), OptSpec::AdamW(0.01, b1, b2, 1e-8, 0.01), OptSpec::Adam(0.01, b1, b2, 1e-8, Some(0.01))].iter().enumerate() {
+            if !g.ctx.thorough() && si == 2 && n > 100 { continue; }
+            let w = Tensor::single(vec![0.5, -0.25, 0.125]);
+            let steps: Vec<String> = (0..n).map(|i| {
+                let gr: Vec<f32> = (0..3).map(|_| g.rng().uniform(-1.0, 1.0)).collect();
+                format!("0 0 0 {} {}", i + 1, qt(&Tensor::single(gr)))
+            }).collect();
+            g.push(format!("opt.run {} 1 1 1 {} {} {}", spec.token(), qt(&w), n, steps.join(" ")), Tol::Tight, &format!("{}/long-history", spec.kind()), true);
+        }
+    }
     // out-of-range slot: refused
     let p = params_for(g, 0);
     let grad = g.tensor_of(&Shape::Double(2, 3), false);
